@@ -1204,7 +1204,7 @@ pub fn run(args: &Args) -> i32 {
          check; distinct = distinct input byte strings (per entry point)",
     );
     let n_shards = 64u64;
-    let per_shard = args.scale(160_000, 1_500_000);
+    let per_shard = args.scale(160_000, 4_000_000);
     vcommon::monitor::run_shards(&mut mon, args.threads, n_shards, |shard, m| {
         let mut rng = Rng::derive(args.seed, shard, 28);
         if shard < 8 {
